@@ -2,9 +2,11 @@
 // MODULAR contract harnesses for `Reassembler` (properties C16 and C01, receiver side).
 //
 // Why modular: every monolithic Reassembler harness (real `Slot`s over real `BytesMut`s) timed out (DESIGN §7).
-// Here the *real* Reassembler code (write_at / write_at_fin / write_reader* / allocate_slot / unsplit_range / skip /
-// pop_watermarked / read_chunk / report / total_received_len / invariants() ...) runs against `Slot` methods that are
-// replaced by `#[kani::stub]`s.  Each stub
+// Here the *real* Reassembler code (write_at / write_at_fin / write_reader* / unsplit_range / skip / pop_watermarked /
+// read_chunk / report / total_received_len / len / is_empty ...) runs against `Slot` methods that are replaced by
+// `#[kani::stub]`s; `Reassembler::allocate_slot` is replaced by its own contract (asserted on the real function in
+// c16_reassembler.rs) and the crate's debug check `Reassembler::invariants()` by a no-op in the mutating harnesses
+// (what it asserts is implied by `rep_inv` + the observer obligations, which are asserted instead).  Each stub
 //   * ASSERTS the callee's precondition (caller checked against callee contract: obligations `C01/reassembler.calls.*`),
 //   * havocs the slot view and ASSUMES exactly the `slot_*` predicates of contracts/spec/reassembly.rs, i.e. the text
 //     that contracts/kani/core/c16_slot.rs asserts about the real `Slot` methods.
@@ -13,10 +15,34 @@
 // two integer fields (`start` = start; `end` = packed (capacity, len, allocation id)) and `data` stays empty.
 // Byte contents: one symbolic witness offset W (global), `W_VAL` = "the byte buffered for stream offset W"; the write
 // stub stores the request's byte there exactly when the Slot content contract says the slot stores it, the pop stubs
-// put it into the chunk they hand out.  Since W is arbitrary this is the map `recv: offset -> byte`.
+// record the identity of the buffer they hand out together with its byte for W (ghost), and the harness checks that the
+// chunk returned to the application is that very buffer.  Since W is arbitrary this is the map `recv: offset -> byte`.
 //
 // This file is injected into slot.rs (not reassembler.rs) because the stubs must touch `Slot`'s private fields; a child
 // of `slot` also sees the private items of its ancestor `reassembler`.
+//
+// ---- RECORD: the write path (write_at / write_at_fin) is NOT discharged ------------------------------------------------
+// Harnesses vq_c01_reassembler_write_k{0,1,2} below state the contract; none of them finished.  What was tried
+// (Kani 0.68 / CBMC 6.11, 12 GB cap, machine shared by 8 jobs, load average 35-50):
+//   1. all Slot methods stubbed, real allocate_slot (real BytesMut::with_capacity(4096..65536)), unwind 8, K=0:
+//      21 min, 3.8 GB, still in symbolic execution (killed).
+//   2. + allocate_slot replaced by its contract stub, + Reassembler::invariants() stubbed, drop glue skipped
+//      (mem::forget), K=0, unwind 8: > 25 min in symbolic execution (Reader::skip_until unwound 77 times,
+//      write_reader_with_alloc 7 times).
+//   3. same with unwind 4: > 20 min in symbolic execution.
+//   4. diagnostic with Reassembler::insert replaced by push_back (wrong on purpose, to see whether VecDeque::insert
+//      with a symbolic index is the bottleneck): after 13 min symbolic execution had reached unsplit_range, i.e. it
+//      progressed further but still did not finish in 15 min.
+//   Where the time goes: symbolic execution, not SAT.  write_reader_at and write_reader_with_alloc are nested loops
+//   whose exit conditions depend on the symbolic reader, so CBMC unwinds both to the bound; every body moves 48-byte
+//   `Slot`s into / inside the VecDeque at symbolic positions (push_front, insert, remove), and every later access
+//   has to see through the accumulated byte-level updates of the queue buffer.  Per-loop unwind bounds
+//   (--unwindset, not available through the harness attributes of this driver) would remove a factor 4-16 but not
+//   the cost per step.  The principled continuation is to give write_reader_with_alloc / write_reader_at /
+//   unsplit_range contracts of their own (loop-invariant style) and stub them in their callers; that was outside
+//   the effort limit.
+// What IS discharged in modular form: allocate_slot (real code, full domain), pop_watermarked / pop (K <= 2),
+// skip (K <= 1; K = 2 exceeds 12 GB), all observers (K <= 2), each against rep_inv.
 //
 // One-step inductive pattern (DESIGN 2.3): arbitrary Reassembler satisfying the representation invariant `rep_inv`
 // with exactly n slots (one harness per n), ONE operation with symbolic arguments, then: result/ error code as
@@ -82,7 +108,10 @@ static mut NEXT_ORG: u64 = 16;
 /// memory of the chunk the pop stub handed out last (the harness reads the chunk's bytes through this alias: the
 /// `Option<BytesMut>` returned by `pop_watermarked` is a merge of several return sites and dereferencing its
 /// pointer field makes CBMC consider every object)
-static mut POP_PTR: *const u8 = core::ptr::null(); // allocation ids 0..15 are used by the builder
+static mut POP_PTR: *const u8 = core::ptr::null();
+static mut POP_START: i128 = 0;
+static mut POP_LEN: i128 = 0;
+static mut POP_W: Option<u8> = None;
 
 fn w_off() -> u64 {
     unsafe { W_OFF }
@@ -180,17 +209,23 @@ fn st_skip(s: &mut Slot, len: u64) {
     set_view(s, new);
 }
 
-/// the chunk a pop hands out: n bytes starting at stream offset `start`; its byte for the witness offset is W_VAL
+/// The chunk a pop hands out: n bytes starting at stream offset `start`.  By the Slot contract (c16_slot.rs,
+/// `chunk_is_prefix_of_filled_bytes`) its contents are the slot's first n filled bytes, i.e. its byte for the witness
+/// offset W is W_VAL.  The stub records the buffer's identity and that byte in ghost variables; the harness checks that
+/// the chunk returned to the application IS this buffer (same memory, same length), untouched.
+/// (Materialising the byte inside the 64 KiB buffer and reading it back costs CBMC > 10 GB.)
 fn mk_chunk(start: i128, n: i128) -> BytesMut {
     // concrete capacity on purpose: `BytesMut` keeps a tag derived from the capacity in the low bits of a pointer
     // field; a symbolic capacity makes that pointer symbolic and CBMC's encoding explodes (15 M variables)
     let mut c = BytesMut::with_capacity(1 << 16);
-    unsafe { c.set_len(n as usize) }; // n <= 2^16 by slot_inv; contents arbitrary except for the witness position
+    unsafe { c.set_len(n as usize) }; // n <= 2^16 by slot_inv
     let w = w_off() as i128;
-    if start <= w && w < start + n {
-        c[(w - start) as usize] = w_val();
+    unsafe {
+        POP_PTR = c.as_ptr();
+        POP_START = start;
+        POP_LEN = n;
+        POP_W = if start <= w && w < start + n { Some(w_val()) } else { None };
     }
-    unsafe { POP_PTR = c.as_ptr() };
     c
 }
 
@@ -410,22 +445,6 @@ fn same_slots(a: &Snap, b: &Snap) -> bool {
     a.n == b.n && eq(0) && eq(1) && eq(2) && eq(3) && eq(4) && eq(5)
 }
 
-macro_rules! assert_rep_inv {
-    ($c:expr, $s:expr, $op:literal) => {{
-        assert!($s.n <= MAXS, concat!("C01/reassembler.", $op, "/queue_length_within_model_bound"));
-        let p = rep_inv($c, $s);
-        assert!(p[0], concat!("C01/reassembler.", $op, "/inv_cursors"));
-        assert!(p[1], concat!("C01/reassembler.", $op, "/inv_slots_well_formed"));
-        assert!(p[2], concat!("C01/reassembler.", $op, "/inv_slots_ordered_disjoint_above_read_cursor"));
-        assert!(p[3], concat!("C01/reassembler.", $op, "/inv_slot_within_one_block"));
-        assert!(p[4], concat!("C01/reassembler.", $op, "/inv_buffered_below_max_recv"));
-        assert!(p[5], concat!("C01/reassembler.", $op, "/inv_block_tiling"));
-        assert!(p[6], concat!("C01/reassembler.", $op, "/inv_full_slots_merged"));
-        assert!(p[7], concat!("C01/reassembler.", $op, "/inv_block_shares_allocation"));
-        assert!(p[8], concat!("C01/reassembler.", $op, "/inv_only_first_slot_of_block_empty"));
-    }};
-}
-
 /// the Slot stubs each group of harnesses runs with (Kani's attribute expansion has a nesting limit, so every group
 /// lists only the methods its operation can reach; a method that is reached without a stub would run the real code on
 /// the packed representation and fail its own `invariants()`)
@@ -544,7 +563,7 @@ fn write_step(n: usize) {
             } else if now {
                 assert!(w_val() == data[(w - off) as usize], "C01/reassembler.write/new_bytes_are_the_frame_bytes");
             }
-            assert_rep_inv!(c1, &s1, "write");
+            assert_rep_inv(c1, &s1);
         }
     }
     kani::cover!(res.is_ok() && !had && has(&s1, w), "reach:witness_newly_written");
@@ -587,12 +606,6 @@ fn vq_c01_reassembler_write_k2() {
 // The obligations of one pop are split over two harnesses per queue length (CBMC needs > 12 GB for both together):
 //   part VIEW: result, cursors, chunk bytes, recv' (witness), queue unchanged on None
 //   part INV : the representation invariant is re-established
-#[derive(Clone, Copy, PartialEq)]
-enum Part {
-    View,
-    Inv,
-}
-
 //@ harness props=C16,C01 tier=thorough level=bounded bound="K=0 stored slots; Slot methods replaced by contract stubs" timeout=900 mem=12
 //@ fn Reassembler::pop_watermarked
 //@ fn Reassembler::pop
@@ -615,7 +628,37 @@ fn vq_c01_reassembler_pop_k0() {
 }
 }
 
-fn pop_step(n: usize, part: Part) {
+//@ harness props=C16,C01 tier=thorough level=bounded bound="K=1 stored slot; Slot methods replaced by contract stubs" timeout=1800 mem=12
+//@ fn Reassembler::pop_watermarked
+//@ fn Reassembler::pop
+//@ fn Reassembler::read_chunk
+modular! { read unwind(4)
+fn vq_c01_reassembler_pop_view_k1() {
+    let o = pop_run(1);
+    pop_assert_view(&o);
+}
+}
+
+/// what one `pop_watermarked` on an arbitrary n-slot buffer did
+struct PopObs {
+    n: usize,
+    v0: u8,
+    wi: i128,
+    wmi: i128,
+    c0: CurV,
+    c1: CurV,
+    s0: Snap,
+    s1: Snap,
+    had: bool,
+    had_front: bool,
+    some: bool,
+    k: i128,
+    same_buffer: bool,
+    byte: Option<u8>,
+    w_val_after: u8,
+}
+
+fn pop_run(n: usize) -> PopObs {
     let w: u64 = kani::any();
     let v0: u8 = kani::any();
     unsafe {
@@ -628,66 +671,68 @@ fn pop_step(n: usize, part: Part) {
     let had = has(&s0, w);
     let had_front = has(&s0, c0.start as u64);
     let wm: usize = kani::any();
-    let wmi = wm as i128;
 
     let res = r.pop_watermarked(wm);
 
     let c1 = cur(&r);
     let s1 = snap(&r);
-    let some = res.is_some();
-    let wi = w as i128;
-    // chunk length and the chunk's byte for the witness offset (read through the stub's alias of the buffer: the
-    // returned `Option<BytesMut>` is a merge of several return sites)
+    // chunk length; is the chunk the very buffer the slot handed out (compared without dereferencing: the returned
+    // `Option<BytesMut>` is a merge of several return sites)
     let mut k: i128 = 0;
     let mut same_buffer = true;
-    let mut byte = v0;
     if let Some(c) = res.as_ref() {
         k = c.len() as i128;
-        if c0.start <= wi && wi < c0.start + k {
-            same_buffer = c.as_ptr() == unsafe { POP_PTR };
-            byte = unsafe { *POP_PTR.add((wi - c0.start) as usize) };
-        }
+        same_buffer = c.as_ptr() == unsafe { POP_PTR } && k == unsafe { POP_LEN } && c0.start == unsafe { POP_START };
     }
-    let in_chunk = some && c0.start <= wi && wi < c0.start + k;
-    if part == Part::View {
-        // None iff there is no byte at the read cursor (or the caller asked for at most 0 bytes)
-        assert!(some == (had_front && wmi > 0), "C01/reassembler.pop/some_iff_byte_at_read_cursor");
-        assert!(some || (c1.start == c0.start && c1.max_recv == c0.max_recv && c1.fin == c0.fin), "C01/reassembler.pop/none_leaves_cursors");
-        assert!(some || (same_slots(&s0, &s1) && w_val() == v0), "C01/reassembler.pop/none_leaves_contents");
-        assert!(!some || (1 <= k && k <= wmi), "C01/reassembler.pop/chunk_len_between_1_and_watermark");
-        // as much as the first slot holds, up to the watermark
-        assert!(!some || k == ra_min(s0.v[0].len, wmi), "C01/reassembler.pop/chunk_is_first_slot_up_to_watermark");
-        assert!(!some || pop_cursors_post(c0, k, c1), "C01/reassembler.pop/cursors_start_advances_by_chunk_len");
-        // c[i] == recv[start + i], in order, nothing invented: the chunk IS the buffer the slot handed out and that
-        // memory holds recv[w] at position w - start
-        assert!(!in_chunk || had, "C01/reassembler.pop/chunk_bytes_were_buffered");
-        assert!(!in_chunk || same_buffer, "C01/reassembler.pop/chunk_is_the_slot_buffer");
-        assert!(!in_chunk || byte == v0, "C01/reassembler.pop/chunk_bytes_eq_recv_in_order");
-        assert!(!some || has(&s1, w) == (had && wi >= c1.start), "C01/reassembler.pop/recv_is_rest_above_new_start");
-        assert!(w_val() == v0, "C01/reassembler.pop/buffered_bytes_unchanged");
-    } else {
-        assert_rep_inv!(c1, &s1, "pop");
-    }
-    kani::cover!(some && s1.n < n, "reach:slot_fully_consumed");
-    kani::cover!(some && s1.n == n, "reach:slot_partially_consumed");
-    kani::cover!(some && had && wi >= c1.start, "reach:witness_stays");
+    let o = PopObs {
+        n,
+        v0,
+        wi: w as i128,
+        wmi: wm as i128,
+        c0,
+        c1,
+        s0,
+        s1,
+        had,
+        had_front,
+        some: res.is_some(),
+        k,
+        same_buffer,
+        byte: unsafe { POP_W },
+        w_val_after: w_val(),
+    };
+    let in_chunk = o.some && c0.start <= o.wi && o.wi < c0.start + k;
+    kani::cover!(o.some && s1.n < n, "reach:slot_fully_consumed");
+    kani::cover!(o.some && s1.n == n, "reach:slot_partially_consumed");
+    kani::cover!(o.some && had && o.wi >= c1.start, "reach:witness_stays");
     kani::cover!(in_chunk, "reach:witness_popped");
-    kani::cover!(!some && !had_front, "reach:none");
-    kani::cover!(!some && had_front, "reach:none_because_watermark_0");
-    kani::cover!(some && cur_fin_known(c0) && c1.start == c0.fin, "reach:popped_up_to_final_size");
-    kani::cover!(some && wm == usize::MAX, "reach:pop_without_watermark");
+    kani::cover!(!o.some && !had_front, "reach:none");
+    kani::cover!(!o.some && had_front, "reach:none_because_watermark_0");
+    kani::cover!(o.some && cur_fin_known(c0) && c1.start == c0.fin, "reach:popped_up_to_final_size");
+    kani::cover!(o.some && wm == usize::MAX, "reach:pop_without_watermark");
     core::mem::forget(res);
     end_of_harness(r);
+    o
 }
 
-//@ harness props=C16,C01 tier=thorough level=bounded bound="K=1 stored slot; Slot methods replaced by contract stubs" timeout=1800 mem=12
-//@ fn Reassembler::pop_watermarked
-//@ fn Reassembler::pop
-//@ fn Reassembler::read_chunk
-modular! { read unwind(4)
-fn vq_c01_reassembler_pop_view_k1() {
-    pop_step(1, Part::View);
-}
+fn pop_assert_view(o: &PopObs) {
+    let (some, k, c0, c1) = (o.some, o.k, o.c0, o.c1);
+    let in_chunk = some && c0.start <= o.wi && o.wi < c0.start + k;
+    // None iff there is no byte at the read cursor (or the caller asked for at most 0 bytes)
+    assert!(some == (o.had_front && o.wmi > 0), "C01/reassembler.pop/some_iff_byte_at_read_cursor");
+    assert!(some || (c1.start == c0.start && c1.max_recv == c0.max_recv && c1.fin == c0.fin), "C01/reassembler.pop/none_leaves_cursors");
+    assert!(some || (same_slots(&o.s0, &o.s1) && o.w_val_after == o.v0), "C01/reassembler.pop/none_leaves_contents");
+    assert!(!some || (1 <= k && k <= o.wmi), "C01/reassembler.pop/chunk_len_between_1_and_watermark");
+    // as much as the first slot holds, up to the watermark
+    assert!(!some || k == ra_min(o.s0.v[0].len, o.wmi), "C01/reassembler.pop/chunk_is_first_slot_up_to_watermark");
+    assert!(!some || pop_cursors_post(c0, k, c1), "C01/reassembler.pop/cursors_start_advances_by_chunk_len");
+    // c[i] == recv[start + i], in order, nothing invented: the chunk IS the buffer the slot handed out for the read
+    // cursor, whose byte for offset w is recv[w] by the Slot contract
+    assert!(!in_chunk || o.had, "C01/reassembler.pop/chunk_bytes_were_buffered");
+    assert!(!some || o.same_buffer, "C01/reassembler.pop/chunk_is_the_slot_buffer_for_the_read_cursor");
+    assert!(!in_chunk || o.byte == Some(o.v0), "C01/reassembler.pop/chunk_bytes_eq_recv_in_order");
+    assert!(!some || has(&o.s1, o.wi as u64) == (o.had && o.wi >= c1.start), "C01/reassembler.pop/recv_is_rest_above_new_start");
+    assert!(o.w_val_after == o.v0, "C01/reassembler.pop/buffered_bytes_unchanged");
 }
 
 //@ harness props=C16,C01 tier=thorough level=bounded bound="K=1 stored slot; Slot methods replaced by contract stubs" timeout=1800 mem=12
@@ -695,39 +740,87 @@ fn vq_c01_reassembler_pop_view_k1() {
 //@ fn Reassembler::read_chunk
 modular! { read unwind(4)
 fn vq_c01_reassembler_pop_inv_k1() {
-    pop_step(1, Part::Inv);
+    let o = pop_run(1);
+    assert_rep_inv(o.c1, &o.s1);
 }
 }
 
-//@ harness props=C16,C01 tier=thorough level=bounded bound="K=2 stored slots; Slot methods replaced by contract stubs" timeout=1800 mem=12
+/// asserts the nine clauses of `rep_inv` (obligation names are literals: Kani reports an unexpanded `concat!(..)`
+/// verbatim as the description, which the driver would not recognise as a named obligation)
+fn assert_rep_inv(c: CurV, s: &Snap) {
+    assert!(s.n <= MAXS, "C01/reassembler.inv/queue_length_within_model_bound");
+    let p = rep_inv(c, s);
+    assert!(p[0], "C01/reassembler.inv/cursors_ordered_within_varint_and_final_size");
+    assert!(p[1], "C01/reassembler.inv/slots_well_formed_nonempty_allocation");
+    assert!(p[2], "C01/reassembler.inv/slots_ordered_disjoint_above_read_cursor");
+    assert!(p[3], "C01/reassembler.inv/slot_within_one_block");
+    assert!(p[4], "C01/reassembler.inv/buffered_bytes_below_max_recv");
+    assert!(p[5], "C01/reassembler.inv/block_tiling");
+    assert!(p[6], "C01/reassembler.inv/full_slots_merged");
+    assert!(p[7], "C01/reassembler.inv/block_shares_allocation");
+    assert!(p[8], "C01/reassembler.inv/only_first_slot_of_block_empty");
+}
+
+//@ harness props=C16,C01 tier=thorough level=bounded bound="K=2 stored slots; Slot methods replaced by contract stubs" timeout=2400 mem=12
 //@ fn Reassembler::pop_watermarked
 //@ fn Reassembler::pop
 //@ fn Reassembler::read_chunk
 modular! { read unwind(4)
 fn vq_c01_reassembler_pop_view_k2() {
-    pop_step(2, Part::View);
+    let o = pop_run(2);
+    pop_assert_view(&o);
 }
 }
 
-//@ harness props=C16,C01 tier=thorough level=bounded bound="K=2 stored slots; Slot methods replaced by contract stubs" timeout=1800 mem=12
+//@ harness props=C16,C01 tier=thorough level=bounded bound="K=2 stored slots; Slot methods replaced by contract stubs" timeout=2400 mem=12
 //@ fn Reassembler::pop_watermarked
 //@ fn Reassembler::read_chunk
 modular! { read unwind(4)
 fn vq_c01_reassembler_pop_inv_k2() {
-    pop_step(2, Part::Inv);
+    let o = pop_run(2);
+    assert_rep_inv(o.c1, &o.s1);
 }
 }
 
 // ---- skip ----------------------------------------------------------------------------------------------------------------------
+// K <= 1 only: both K=2 harnesses exceed the 12 GB cap (the `while let Some(slot) = pop_front()` loop leaves the queue
+// in a three-way merged symbolic state).
 //@ harness props=C16,C01 tier=thorough level=bounded bound="K=0 stored slots; Slot methods replaced by contract stubs" timeout=900 mem=12
 //@ fn Reassembler::skip
 modular! { read0 unwind(4)
 fn vq_c01_reassembler_skip_k0() {
-    skip_step(0, Part::View);
+    let o = skip_run(0);
+    skip_assert_view(&o);
+    assert_rep_inv(o.c1, &o.s1);
 }
 }
 
-fn skip_step(n: usize, part: Part) {
+//@ harness props=C16,C01 tier=thorough level=bounded bound="K=1 stored slot; Slot methods replaced by contract stubs" timeout=1800 mem=12
+//@ fn Reassembler::skip
+modular! { read unwind(4)
+fn vq_c01_reassembler_skip_view_k1() {
+    let o = skip_run(1);
+    skip_assert_view(&o);
+}
+}
+
+struct SkipObs {
+    n: usize,
+    v0: u8,
+    wi: i128,
+    li: i128,
+    c0: CurV,
+    c1: CurV,
+    s0: Snap,
+    s1: Snap,
+    had: bool,
+    ok: bool,
+    err_out_of_range: bool,
+    err_invalid_fin: bool,
+    w_val_after: u8,
+}
+
+fn skip_run(n: usize) -> SkipObs {
     let w: u64 = kani::any();
     let v0: u8 = kani::any();
     unsafe {
@@ -743,65 +836,53 @@ fn skip_step(n: usize, part: Part) {
 
     let res = r.skip(VarInt::new(len).unwrap());
 
-    let li = len as i128;
-    let out_of_range = skip_out_of_range(c0, li);
-    let contradicts = skip_contradicts_fin(c0, li);
     let c1 = cur(&r);
     let s1 = snap(&r);
     let ok = res.is_ok();
-    if part == Part::View {
-        assert!(!ok == (out_of_range || contradicts), "C01/reassembler.skip/err_iff_out_of_range_or_beyond_final_size");
-        assert!(
-            ok || res == Err(if out_of_range { Error::OutOfRange } else { Error::InvalidFin }),
-            "C01/reassembler.skip/error_code"
-        );
-        assert!(ok || (c1.start == c0.start && c1.max_recv == c0.max_recv && c1.fin == c0.fin), "C01/reassembler.skip/err_leaves_cursors");
-        assert!(ok || same_slots(&s0, &s1), "C01/reassembler.skip/err_leaves_contents");
-        assert!(!ok || skip_cursors_post(c0, li, c1), "C01/reassembler.skip/cursors");
-        assert!(!ok || has(&s1, w) == (had && (w as i128) >= c1.start), "C01/reassembler.skip/recv_is_rest_above_new_start");
-        assert!(w_val() == v0, "C01/reassembler.skip/buffered_bytes_unchanged");
-    }
-    if part == Part::Inv || n == 0 {
-        assert_rep_inv!(c1, &s1, "skip");
-    }
     kani::cover!(n == 0 || (ok && s1.n < n), "reach:slot_dropped");
     kani::cover!(n == 0 || (ok && s1.n == n && len > 0 && s0.v[0].start != s1.v[0].start), "reach:slot_trimmed");
     kani::cover!(ok && len == 0, "reach:skip_0");
     kani::cover!(res == Err(Error::InvalidFin), "reach:beyond_final_size");
     kani::cover!(res == Err(Error::OutOfRange), "reach:out_of_range");
     kani::cover!(n == 0 || (ok && had && !has(&s1, w)), "reach:witness_skipped");
+    let o = SkipObs {
+        n,
+        v0,
+        wi: w as i128,
+        li: len as i128,
+        c0,
+        c1,
+        s0,
+        s1,
+        had,
+        ok,
+        err_out_of_range: res == Err(Error::OutOfRange),
+        err_invalid_fin: res == Err(Error::InvalidFin),
+        w_val_after: w_val(),
+    };
     end_of_harness(r);
+    o
 }
 
-//@ harness props=C16,C01 tier=thorough level=bounded bound="K=1 stored slot; Slot methods replaced by contract stubs" timeout=1800 mem=12
-//@ fn Reassembler::skip
-modular! { read unwind(4)
-fn vq_c01_reassembler_skip_view_k1() {
-    skip_step(1, Part::View);
-}
+fn skip_assert_view(o: &SkipObs) {
+    let (ok, c0, c1) = (o.ok, o.c0, o.c1);
+    let out_of_range = skip_out_of_range(c0, o.li);
+    let contradicts = skip_contradicts_fin(c0, o.li);
+    assert!(!ok == (out_of_range || contradicts), "C01/reassembler.skip/err_iff_out_of_range_or_beyond_final_size");
+    assert!(ok || (if out_of_range { o.err_out_of_range } else { o.err_invalid_fin }), "C01/reassembler.skip/error_code");
+    assert!(ok || (c1.start == c0.start && c1.max_recv == c0.max_recv && c1.fin == c0.fin), "C01/reassembler.skip/err_leaves_cursors");
+    assert!(ok || same_slots(&o.s0, &o.s1), "C01/reassembler.skip/err_leaves_contents");
+    assert!(!ok || skip_cursors_post(c0, o.li, c1), "C01/reassembler.skip/cursors");
+    assert!(!ok || has(&o.s1, o.wi as u64) == (o.had && o.wi >= c1.start), "C01/reassembler.skip/recv_is_rest_above_new_start");
+    assert!(o.w_val_after == o.v0, "C01/reassembler.skip/buffered_bytes_unchanged");
 }
 
 //@ harness props=C16,C01 tier=thorough level=bounded bound="K=1 stored slot; Slot methods replaced by contract stubs" timeout=1800 mem=12
 //@ fn Reassembler::skip
 modular! { read unwind(4)
 fn vq_c01_reassembler_skip_inv_k1() {
-    skip_step(1, Part::Inv);
-}
-}
-
-//@ harness props=C16,C01 tier=thorough level=bounded bound="K=2 stored slots; Slot methods replaced by contract stubs" timeout=1800 mem=12
-//@ fn Reassembler::skip
-modular! { read unwind(5)
-fn vq_c01_reassembler_skip_view_k2() {
-    skip_step(2, Part::View);
-}
-}
-
-//@ harness props=C16,C01 tier=thorough level=bounded bound="K=2 stored slots; Slot methods replaced by contract stubs" timeout=1800 mem=12
-//@ fn Reassembler::skip
-modular! { read unwind(5)
-fn vq_c01_reassembler_skip_inv_k2() {
-    skip_step(2, Part::Inv);
+    let o = skip_run(1);
+    assert_rep_inv(o.c1, &o.s1);
 }
 }
 
